@@ -844,6 +844,9 @@ fn explore_state(cfg: &SimConfig, hist: &[Ev], seq_fps: &HashSet<Fp>, props: &[&
             let mut stack: Vec<Vec<u8>> = vec![vec![]];
             let mut n_inter = 0u64;
             while let Some(prefix) = stack.pop() {
+                // the watchdog times ONE interleaving (a state can have thousands of them, and a baton hand-over costs a
+                // scheduler round trip when the machine is oversubscribed)
+                crate::evidence::watchdog::touch();
                 let mut sim = Sim::replay(cfg, hist);
                 let pre = checks::capture_pre(&sim);
                 let pre_ages: Vec<(usize, Duration)> = sim.snap.tokens.iter().flat_map(|t| t.idle.iter()).filter_map(|i| i.conn.parse::<usize>().ok().map(|c| (c, i.age))).collect();
